@@ -167,8 +167,10 @@ def erase_where_found(trees):
                         erases.append(x)
             if not erases:
                 continue
+            # the search: a find / find_if call, or a hand-written loop over the records, in the same body
             searched = any((x.get('name') in ('find_if', 'find')) or member_name(x) in ('find_if', 'find')
-                           or (x.get('kind') == 'UnresolvedLookupExpr' and x.get('name') in ('find_if', 'find')) for x in walk(body[0]))
+                           or (x.get('kind') == 'UnresolvedLookupExpr' and x.get('name') in ('find_if', 'find'))
+                           or x.get('kind') in ('ForStmt', 'WhileStmt', 'CXXForRangeStmt', 'DoStmt') for x in walk(body[0]))
             locked = any(x.get('kind') == 'VarDecl' and any(k in (x.get('type') or {}).get('qualType', '') for k in ('unique_lock', 'lock_guard'))
                          for x in walk(body[0]))
             sites.append((fn.get('name'), searched and locked))
